@@ -65,6 +65,8 @@ type Stack struct {
 	bodies   map[string]string // sha -> label of the first event that carried this body
 	intAgent map[string]string // internal agent name -> id
 	intGen   map[string]int    // internal agent name -> generation in which the id was issued
+	invMu    sync.Mutex
+	ninv     int
 	lastReq  []string          // request ids seen by the runtime, in order
 	nbody    int
 }
@@ -298,7 +300,14 @@ type InvokeResult struct {
 }
 
 // Invoke calls Server.Invoke as the front end does and records call and return.
-func (s *Stack) Invoke(caller int, k int, payload []byte, label string, clientCtx, traceID string) InvokeResult {
+func (s *Stack) Invoke(caller int, payload []byte, label string, clientCtx, traceID string) InvokeResult {
+	// ordinal and InvokeCall event are one atomic step: ordinals follow the order of the events
+	s.invMu.Lock()
+	s.ninv++
+	k := s.ninv
+	if label == "" {
+		label = fmt.Sprintf("p%d", k)
+	}
 	label = s.noteBody(payload, label)
 	w := &respWriter{hdr: http.Header{}}
 	inv := &interop.Invoke{
@@ -312,6 +321,7 @@ func (s *Stack) Invoke(caller int, k int, payload []byte, label string, clientCt
 	t0 := time.Now()
 	s.Rec.Emit(fmt.Sprintf("caller:%d", caller), "InvokeCall", "caller", caller, "k", k, "payload", label, "size", len(payload),
 		"ctx", clientCtx, "trace", traceID)
+	s.invMu.Unlock()
 	err := s.Srv.Invoke(w, inv)
 	res := InvokeResult{Status: w.status, DurMs: time.Since(t0).Milliseconds()}
 	w.mu.Lock()
